@@ -103,6 +103,19 @@ def pre_activity(seed):
     np.random.permutation(r.randint(2, 6))
     for _ in range(r.randint(0, 5)):
         random.random()
+    # explainers of every class built from the documented required arguments alone (default storage / imputer)
+    names = ["a", "b"]
+    m = Model(names)
+    for cls in (IncrementalPFI, IncrementalSage):
+        ex = cls(m, loss, names)
+        for t in range(r.randint(2, 6)):
+            ex.explain_one({"a": float(t), "b": float(t % 3)}, float(t % 2))
+    bs = BatchSage(m, names, loss)
+    for t in range(r.randint(2, 5)):
+        bs.explain_one({"a": float(t), "b": 1.0 + t}, float(t), original_sage=bool(t % 2), verbose=False)
+    iv = IntervalSage(m, names, loss, interval_length=2, storage_length=3)
+    for t in range(r.randint(2, 5)):
+        iv.explain_one({"a": float(t), "b": 2.0 * t}, float(t), verbose=False)
     if r.random() < 0.5:
         ts = TreeStorage(cat_feature_names=[], num_feature_names=["n0", "n1"], grace_period=5, seed=r.randint(0, 99))
         for t in range(20):
@@ -147,18 +160,22 @@ def run_config(cfg, mode):
         kw = {}
         if imputer is not None:
             kw["imputer"] = imputer
+        skw = {"storage": storage}
+        if cfg.get("default_storage"):
+            skw = {}          # the explainer's own default storage (and default imputer)
+            kw = {}
         if ek in ("pfi", "sage"):
             cls = IncrementalPFI if ek == "pfi" else IncrementalSage
-            e = cls(model_function=model, loss_function=loss, feature_names=names, storage=storage,
+            e = cls(model_function=model, loss_function=loss, feature_names=names,
                     dynamic_setting=cfg.get("dynamic", True), smoothing_alpha=cfg.get("alpha", 0.1),
-                    n_inner_samples=cfg.get("n_inner", 1), **kw)
+                    n_inner_samples=cfg.get("n_inner", 1), **skw, **kw)
         elif ek == "batch":
             e = BatchSage(model_function=model, feature_names=names, loss_function=loss,
-                          n_inner_samples=cfg.get("n_inner", 1), storage=storage, **kw)
+                          n_inner_samples=cfg.get("n_inner", 1), **skw, **kw)
         elif ek == "interval":
             e = IntervalSage(model_function=model, feature_names=names, loss_function=loss,
                              n_inner_samples=cfg.get("n_inner", 1), interval_length=cfg.get("interval_length", 3),
-                             storage=storage, **kw)
+                             **({"storage_length": cfg["storage"].get("size", 3)} if not skw else skw), **kw)
         digests = []
         for t in range(1, cfg["T"] + 1):
             x, y = row(cfg, t)
@@ -178,7 +195,8 @@ def run_config(cfg, mode):
             else:
                 vals = e.explain_one(x, y, update_storage=(t % 7 != 3) or t < 10)
             h = hashlib.blake2b(digest_size=12)
-            h.update(repr(canon_storage(storage)).encode())
+            if not cfg.get("default_storage"):
+                h.update(repr(canon_storage(storage)).encode())
             if vals:
                 h.update(repr(sorted((repr(k), float(v).hex()) for k, v in vals.items())).encode())
             digests.append(h.hexdigest())
